@@ -47,3 +47,29 @@ Theorem C20_repeated_sum_reading_refuted :
     lin_value_elem start width i <> Nat.iter i (fun c => fadd c width) start.
 Proof. exists 0, 4591870180066957722, 6%nat. vm_compute. discriminate. Qed.
 Print Assumptions C20_repeated_sum_reading_refuted.
+
+(* The mutant "identity 0 means the empty set": a fast path at the top of
+   bucketCache.Get that, when the identity is 0, returns the storage of the
+   single catch-all bucket without consulting the cache or bucketsEqual.  The
+   identity function of the code is 0 for the empty set -- and for every
+   non-empty set whose elements sum to -23/31 = 8925843906633654007 modulo
+   2^64.  DurationBuckets{250ms, 1s, 8925843905383654007ns} is one: with the
+   mutant its histogram, even as the only one ever created, gets the bounds
+   [MaxInt64] instead of its own. *)
+Definition get_emptyfast (ident : kind -> list Z -> Z) (c : cache) (own : nat) (k : kind)
+           (spec : list Z) : cache * storage :=
+  if ident k spec =? 0 then (c, Storage own k spec (map snd (pairs k [])))
+  else get ident c own k spec.
+
+Theorem C20_emptyfast_refuted :
+  exists (k : kind) (spec : list Z) (s : storage),
+    spec <> [] /\ real_ident k spec = real_ident k [] /\
+    run_from (get_emptyfast real_ident) [] 0 [(k, spec)] = [s] /\
+    sbounds s = [MAXI] /\
+    uppers k spec = [250000000; 1000000000; 8925843905383654007; MAXI].
+Proof.
+  exists KDuration, [250000000; 1000000000; 8925843905383654007].
+  eexists. split; [discriminate|]. split; [vm_compute; reflexivity|].
+  split; [vm_compute; reflexivity|]. vm_compute. split; reflexivity.
+Qed.
+Print Assumptions C20_emptyfast_refuted.
